@@ -923,6 +923,13 @@ Proof. intros H. apply Forall_map. apply Forall_forall. intros. apply rd_rect. a
 Lemma rd_all_abs s srcs : map (rd rops (abs_state s)) srcs = map abs (map (rd cops s) srcs).
 Proof. rewrite map_map. apply map_ext. intros. apply rd_abs. Qed.
 
+Lemma sub_ref ks c : Rect c -> sub_keys rops (abs c) ks = abs (sub_keys cops c ks) /\ Rect (sub_keys cops c ks).
+Proof.
+  revert c. induction ks as [|k ks IH]; intros c R; [split; [reflexivity|assumption]|]. unfold sub_keys. cbn [fold_left t_del rops cops].
+  rewrite (ref_del c k R). destruct (c_del c k) as [c'|e] eqn:E; cbn [rmap].
+  - apply (IH c'). eapply rect_del; eassumption.
+  - apply (IH c R).
+Qed.
 (* the invariant is preserved by every op, accepted or rejected *)
 Lemma step_inv s o : Inv s -> Inv (fst (step cops s o)).
 Proof.
@@ -948,6 +955,7 @@ Proof.
     + destruct (c_new_records (map (@dict_of cell) rs)); cbn [bind] in E; [eapply rect_concat; eassumption|discriminate].
   - inversion E; subst. apply RD. assumption.
   - destruct (Z.eqb s0 0); [discriminate|]. eapply rect_ints; [apply RD; assumption|eassumption].
+  - inversion E; subst. apply sub_ref. apply RD. assumption.
 Qed.
 
 (* one step of the dict-of-lists model commutes with the abstraction and yields the same output *)
@@ -989,6 +997,7 @@ Proof.
       eapply rect_new_records; [apply Forall_dict_of_nodup|eassumption].
   - reflexivity.
   - destruct (Z.eqb s0 0); [reflexivity|]. apply ref_ints. apply RD. assumption.
+  - rewrite (proj1 (sub_ref ks _ (RD r H))). reflexivity.
 Qed.
 
 Lemma run_fold_inv ops s acc : Inv s ->
